@@ -73,16 +73,24 @@ def drive(case):
         else:
             k = n + ':' + t.txt
         return {'k': k, 'p': t.pos, 'f': f}
-    rec = {'id': case['id'], 'toks': case['toks']}
+    rec = {'id': case['id'], 'toks': case['toks'], 'oom': case.get('oom', 'no')}
+    from harness import drivers
     try:
+        # (an input that the machine leaves early - a name it does not handle - may make the real expander run for ever)
+        drivers._arm()
         with contextlib.redirect_stderr(io.StringIO()):
             out = p.expand_sequence(scanner.Buffer([mk(t) for t in case['toks']]))
+        drivers._disarm()
         rec['out'] = [back(t) for t in out]
         inv = {v: k for k, v in MACNAME.items()}
         rec['unk'] = [inv.get(u, u) for u in p.unknowns]
         rec['outcome'] = 'returned'
+    except drivers._Alarm:
+        rec.update(out=[], unk=[], outcome='hang')
     except BaseException as e:  # noqa
         rec.update(out=[], unk=[], outcome='exception:' + type(e).__name__)
+    finally:
+        drivers._disarm()
     return rec
 
 
@@ -108,14 +116,15 @@ def phase(c, tier):
         key = tuple((t['k'], t['p']) for t in s['toks'])
         if key not in seen:
             seen.add(key)
-            cases.append(dict(id='ex%d' % len(cases), toks=s['toks']))
+            cases.append(dict(id='ex%d' % len(cases), toks=s['toks'], oom=s['oom']))
     c.rng.shuffle(cases)
     cases = cases[:9000 if q else 120000]
     recs = c.drive(cases, drive)
     ok = [x for x in recs if x['outcome'] == 'returned']
     for x in recs:
-        if x['outcome'] != 'returned':
+        if x['outcome'] != 'returned' and x['oom'] == 'no':
             c.drift.append({'tokens': [t['k'] for t in x['toks']], 'what': 'expander: ' + x['outcome']})
+    c.extra['expander_inputs_not_returned_outside_model'] = len([x for x in recs if x['outcome'] != 'returned' and x['oom'] != 'no'])
     verdicts = c.validate('ExpandTrace: the real expander along TLC inputs', 'ExpandTrace', ok, spec='TSpec',
                           constants={'MaxSym': 0, 'MaxExp': 24, 'Alpha': set()}, project=lambda x: {k: x[k] for k in ('id', 'toks', 'out', 'unk')})
     nout = 0
